@@ -23,6 +23,9 @@ func c11(c *core.Ctx) map[string]interface{} {
 	r11sibX(c)
 	r11plmn(c)
 	r13pure(c)
+	// the identity the messages carry is the SUCI of the SUPI CreateUE builds: its digits must be the
+	// configured IMSI's (same digit count), or MCC/MNC/MSIN shift
+	r16dep(c)
 	return nil
 }
 
